@@ -564,7 +564,9 @@ example : Dec2Bin.narrow32 0x3ff0000010000000 = 0x3f800000 := by decide      -- 
 open RsslVerif.Gen.LitFormatTables in
 /-- **literal_tables_as_modelled**: the code the printing model (`Model/LitFormat.lean`) is written against,
 re-extracted from the source on every run: every arm of `format_literal` (pattern, guard, format string) in order, the
-four `write_infinity_*` helpers, the `generate_literal` arms of the HLSL and of the Metal generator that map an
+four `write_infinity_*` helpers, the guard `f32_digits_round_twice` of the two arms added by fix 265a080 (signature, body —
+`Display` digits parsed as a double and cast to single differ from the value — and that it is used by exactly those two
+arms), the `generate_literal` arms of the HLSL and of the Metal generator that map an
 `ir::Constant` to the `ast::Literal` that is printed (negative integers become `-` applied to the magnitude), and the
 typer's `parse_literal` (token payload → `ir::Constant`, 64-bit integer literals rejected).  Any change of a guard, a
 suffix, a format string or the arm order breaks this obligation before an input is found. -/
@@ -588,6 +590,7 @@ theorem literal_tables_as_modelled :
       ("ast::Literal::Float16(v)", "*v == 0.0 && v.is_sign_negative()", "output.push_str(\"-0.0h\")"),
       ("ast::Literal::Float16(v)", "*v == (*v as i64 as f32)", "write!(output, \"{}.0h\", *v as i64).unwrap()"),
       ("ast::Literal::Float16(v)", "*v > i64::MAX as f32 || *v < i64::MIN as f32", "write!(output, \"{v}.0h\").unwrap()"),
+      ("ast::Literal::Float16(v)", "f32_digits_round_twice(*v)", "write!(output, \"{}h\", *v as f64).unwrap()"),
       ("ast::Literal::Float16(v)", "", "write!(output, \"{v}h\").unwrap()"),
       ("ast::Literal::Float32(v)", "*v == f32::INFINITY", "write_infinity_f32(output, context)"),
       ("ast::Literal::Float32(v)", "*v == f32::NEG_INFINITY", "output.push('-'); write_infinity_f32(output, context)"),
@@ -595,6 +598,7 @@ theorem literal_tables_as_modelled :
       ("ast::Literal::Float32(v)", "*v == 0.0 && v.is_sign_negative()", "output.push_str(\"-0.0f\")"),
       ("ast::Literal::Float32(v)", "*v == (*v as i64 as f32)", "write!(output, \"{}.0f\", *v as i64).unwrap()"),
       ("ast::Literal::Float32(v)", "*v > i64::MAX as f32 || *v < i64::MIN as f32", "write!(output, \"{v}.0f\").unwrap()"),
+      ("ast::Literal::Float32(v)", "f32_digits_round_twice(*v)", "write!(output, \"{}f\", *v as f64).unwrap()"),
       ("ast::Literal::Float32(v)", "", "write!(output, \"{v}f\").unwrap()"),
       ("ast::Literal::Float64(v)", "*v == f64::INFINITY", "write_infinity_f64(output, context)"),
       ("ast::Literal::Float64(v)", "*v == f64::NEG_INFINITY", "output.push('-'); write_infinity_f64(output, context)"),
@@ -603,6 +607,7 @@ theorem literal_tables_as_modelled :
       ("ast::Literal::Float64(v)", "*v > i64::MAX as f64 || *v < i64::MIN as f64", "write!(output, \"{v}.0L\").unwrap()"),
       ("ast::Literal::Float64(v)", "", "write!(output, \"{v}L\").unwrap()"),
       ("ast::Literal::String(s)", "", "write!(output, \"\\\"{s}\\\"\").unwrap()")] ∧
+    f32DigitsRoundTwice = ("v: f32 -> bool", "v.to_string().parse::<f64>().map(|d| d as f32) != Ok(v)", 2) ∧
     writeInfinity = [
       ("write_infinity_untyped", "\"INFINITY\"", "1.#INF"),
       ("write_infinity_f16", "\"INFINITY\"", "1.#INFh"),
@@ -647,26 +652,31 @@ has exactly one arm for `ir::Constant::Float64` and it returns `Err(GenerateErro
 an `ast::Literal::Float64`, so the Metal generator hands no double literal — finite or infinite — to the formatter;
 (2) `format_literal` (model `fmtFloat`) fails only on a NaN (no literal, not reachable from source) or at that panic site,
 and the panic site needs exactly an infinite `Float64` literal printed for Metal: for every other kind, target and bit
-pattern `format_literal` returns a text.  Together: compiling for Metal cannot reach the `invalid msl` panic through a
+pattern `format_literal` returns a text (the third alternative is not a failure of the code but the model leaving its
+subset: the `Display` text handed over for a single is not a plain decimal, so `f32_digits_round_twice` — `roundTwice?` —
+is not evaluated; Rust's `Display` of a finite float always is, and the run checks that on every case).  Together: compiling for Metal cannot reach the `invalid msl` panic through a
 literal; the run replays `1.#INFL`, `1e999L`, `-1e999L` (corpus) and expects the `UnsupportedDouble` rejection. -/
 theorem msl_double_literal_rejected :
     generateLiteralMsl.filter (fun a => a.1 = "ir::Constant::Float64(_)" ∨ a.1 = "ir::Constant::Float64(v)") =
       [("ir::Constant::Float64(_)", "", "return Err(GenerateError::UnsupportedDouble)")] ∧
     (∀ a ∈ generateLiteralMsl, a.2.2 ≠ "ast::Literal::Float64(v)") ∧
     (generateLiteralHlsl.filter (fun a => a.2.2 = "ast::Literal::Float64(v)")).map (·.1) = ["ir::Constant::Float64(v)"] ∧
-    ∀ (k : Model.LitFormat.Kind) (msl : Bool) (bits : Nat) (disp : Bytes) (e : String),
-      Model.LitFormat.fmtFloat k msl bits disp = .error e →
+    ∀ (k : Model.LitFormat.Kind) (msl : Bool) (bits : Nat) (disp disp64 : Bytes) (e : String),
+      Model.LitFormat.fmtFloat k msl bits disp disp64 = .error e →
         (e = "NaN" ∧ k.fmt.infBits < bits % Model.LitFormat.signBit k.fmt) ∨
-        (e = "panic: invalid msl" ∧ k = .f64 ∧ msl = true ∧ bits % Model.LitFormat.signBit k.fmt = k.fmt.infBits) := by
+        (e = "panic: invalid msl" ∧ k = .f64 ∧ msl = true ∧ bits % Model.LitFormat.signBit k.fmt = k.fmt.infBits) ∨
+        (e = Model.LitFormat.notPlain ∧ (k = .f16 ∨ k = .f32) ∧
+          Model.LitFormat.roundTwice? (decide (Model.LitFormat.signBit k.fmt ≤ bits))
+            (bits % Model.LitFormat.signBit k.fmt) disp = none) := by
   refine ⟨by decide +kernel, by decide +kernel, by decide +kernel, ?_⟩
-  intro k msl bits disp e h
+  intro k msl bits disp disp64 e h
   unfold Model.LitFormat.fmtFloat at h
   simp only at h
   split at h
   · left; rename_i hn; simp at h; exact ⟨h.symm, hn⟩
   · split at h
     · rename_i hi
-      right
+      right; left
       unfold Model.LitFormat.infText at h
       cases msl <;> cases k <;> simp at h <;> first | exact ⟨h.symm, rfl, rfl, hi⟩ | skip
     · split at h
@@ -675,12 +685,21 @@ theorem msl_double_literal_rejected :
         · simp at h
         · split at h
           · split at h <;> simp at h
-          · simp at h
+          · split at h
+            · rename_i hs
+              split at h
+              · simp at h
+              · simp at h
+              · rename_i hnone
+                right; right
+                simp at h
+                exact ⟨h.symm, hs, hnone⟩
+            · simp at h
 
 /-- non-vacuity: the failing branch exists in the formatter (an infinite `Float64` for Metal), every other infinity prints -/
-example : (match Model.LitFormat.fmtFloat .f64 true 0x7ff0000000000000 [] with | .error e => e | .ok _ => "") = "panic: invalid msl" ∧
-    (Model.LitFormat.fmtFloat .f64 false 0x7ff0000000000000 []).toOption = some [49, 46, 35, 73, 78, 70, 76] ∧
-    (Model.LitFormat.fmtFloat .f32 true 0x7f800000 []).toOption.isSome = true := by decide
+example : (match Model.LitFormat.fmtFloat .f64 true 0x7ff0000000000000 [] [] with | .error e => e | .ok _ => "") = "panic: invalid msl" ∧
+    (Model.LitFormat.fmtFloat .f64 false 0x7ff0000000000000 [] []).toOption = some [49, 46, 35, 73, 78, 70, 76] ∧
+    (Model.LitFormat.fmtFloat .f32 true 0x7f800000 [] []).toOption.isSome = true := by decide
 
 /-- **emit_int_exact**: an integer literal whose payload fits its kind (`< 2^64`; `< 2^32` for `u`; `< 2^63` for `l`) is
 printed by `format_literal` as `Display` of the payload followed by the kind's suffix, and that text — followed by the end
@@ -690,7 +709,7 @@ magnitude by `generate_literal`, see `literal_tables_as_modelled`; the `-` is a 
 theorem emit_int_exact (k : Model.LitFormat.Kind) (ity : Option IntType) (hk : k.intType? = some ity) (v : Nat) (tok : Token)
     (hfit : mkIntToken? v ity = some tok) (hv : v < 2 ^ 64) (hs : k = .s64 → v < 2 ^ 63)
     (rest : Bytes) (hb : IntBoundary rest) (inc : Bool) :
-    Model.LitFormat.fmtLiteral k false v [] = .ok (Model.LitFormat.fmtInt k v) ∧
+    Model.LitFormat.fmtLiteral k false v [] [] = .ok (Model.LitFormat.fmtInt k v) ∧
     tokenIntermediate (Model.LitFormat.fmtInt k v ++ rest) inc = .ok (rest, tok) ∧ tok.intValue? = some (v : Int) := by
   refine ⟨?_, Model.LitFormat.fmtInt_lexes k ity hk v tok hfit hv hs rest hb inc, mkIntToken?_value hfit⟩
   cases k <;> simp [Model.LitFormat.Kind.intType?] at hk <;> rfl
@@ -699,21 +718,38 @@ theorem emit_int_exact (k : Model.LitFormat.Kind) (ity : Option IntType) (hk : k
 `mag` (a binary64 pattern for the untyped and the `L` kind, a binary32 pattern for `f` and — as the code keeps half
 literals in an `f32` — for `h`), the text `format_literal` prints, followed by the end of the text or any byte that is not
 an identifier character and not `#`, is read by `token_intermediate` as exactly one token: the float literal of the same
-kind carrying the same bits.  The only assumption is about Rust's `Display` (`{v}`): it writes plain decimal digits
-`L[.R]`, with a `.` exactly when the value is not whole, whose nearest double — narrowed once for the single-precision
-kinds, i.e. read the way the lexer reads (`lex_float_nearest`) — is the value.  The correspondence run checks this
-assumption bit for bit on every generated value (and finds the one single for which it fails: `0x15ae43fd`, see
-`emit_f32_double_rounding_witness`).  Values printed through `v as i64` need no assumption: `emit_whole_value_exact`. -/
+kind carrying the same bits.  The assumptions are about Rust's `Display` (`{v}`) only: it writes plain decimal digits
+`L[.R]`, with a `.` exactly when the value is not whole (`htext`, `hdot`), and
+
+* `hrt` — for the double-precision kinds, and for whole singles (those above `2^63` are printed `<Display>.0`): the nearest
+  double of the digits, narrowed once for a single — i.e. read the way the lexer reads (`lex_float_nearest`) — is the value;
+* for a single that is not whole **no such assumption is made any more** (fix 265a080): `format_literal` itself tests
+  whether its `Display` digits read back through the double (`f32_digits_round_twice`, model `roundTwice?`), and when they
+  do not (`0x15ae43fd`, see `emit_f32_double_rounding_repaired`) it prints `Display` of the same value as a double, of which
+  `h64` assumes what `hrt` assumes of a double: plain digits `L2.R2` whose nearest double is that double (`widen32 mag`,
+  the exact value of the single); narrowing it once gives the single back (`narrow32_widen`, proved for zero, subnormal and
+  normal singles).
+
+The correspondence run checks these assumptions bit for bit on every generated value and, in the thorough tier, `hrt` on
+all 2^31 singles.  Values printed through `v as i64` need no assumption: `emit_whole_value_exact`. -/
 theorem emit_value_exact (k : Model.LitFormat.Kind) (ty : Option FloatType) (hk : k.floatType? = some ty) (msl : Bool)
     (mag : Nat) (hfin : mag < k.fmt.infBits) (hmax : ¬ (k = .f32 ∧ msl = true ∧ mag = k.fmt.infBits - 1))
     (disp : Bytes) (L R : List Nat) (hLne : L ≠ []) (hdig : ∀ d ∈ L ++ R, d < 10)
-    (htext : disp = L.map digitByte ++ (if R = [] then [] else 46 :: R.map digitByte))
+    (htext : disp = Model.LitFormat.plainDec L R)
     (hdot : R = [] ↔ (Model.LitFormat.wholeValue? k.fmt mag).isSome)
-    (hrt : narrowOnce ty (Dec2Bin.nearest64 (L ++ R) (0 - (R.length : Nat))) = mag)
-    (text : Bytes) (h : Model.LitFormat.fmtFloat k msl mag disp = .ok text) (rest : Bytes) (hb : Boundary rest) (inc : Bool) :
+    (hrt : k.fmt = Dec2Bin.binary64 ∨ (Model.LitFormat.wholeValue? k.fmt mag).isSome →
+      narrowOnce ty (Dec2Bin.nearest64 (L ++ R) (0 - (R.length : Nat))) = mag)
+    (disp64 : Bytes) (L2 R2 : List Nat)
+    (h64 : k.fmt = Dec2Bin.binary32 → Model.LitFormat.wholeValue? k.fmt mag = none →
+      Dec2Bin.narrow32 (Dec2Bin.nearest64 (L ++ R) (0 - (R.length : Nat))) ≠ mag →
+      L2 ≠ [] ∧ R2 ≠ [] ∧ (∀ d ∈ L2 ++ R2, d < 10) ∧ disp64 = Model.LitFormat.plainDec L2 R2 ∧
+      Dec2Bin.nearest64 (L2 ++ R2) (0 - (R2.length : Nat)) = Model.LitFormat.widen32 mag)
+    (text : Bytes) (h : Model.LitFormat.fmtFloat k msl mag disp disp64 = .ok text) (rest : Bytes) (hb : Boundary rest)
+    (inc : Bool) :
     tokenIntermediate (text ++ rest) inc = .ok (rest, Model.LitFormat.floatTok k mag) ∧
     (Model.LitFormat.floatTok k mag).floatBits? = some mag :=
-  ⟨Model.LitFormat.fmtFloat_lexes k ty hk msl mag hfin hmax disp L R hLne hdig htext hdot hrt text h rest hb inc,
+  ⟨Model.LitFormat.fmtFloat_lexes k ty hk msl mag hfin hmax disp L R hLne hdig htext hdot hrt disp64 L2 R2 h64 text h
+     rest hb inc,
    by cases k <;> rfl⟩
 
 /-- **emit_whole_value_exact** (no assumption): a finite non-negative float whose value is a whole number up to `2^63` —
@@ -721,36 +757,40 @@ theorem emit_value_exact (k : Model.LitFormat.Kind) (ty : Option FloatType) (hk 
 same bits; `2^63` itself is printed as `9223372036854775807.0` (`as i64` saturates) and still reads back as `2^63`. -/
 theorem emit_whole_value_exact (k : Model.LitFormat.Kind) (ty : Option FloatType) (hk : k.floatType? = some ty) (msl : Bool)
     (mag n : Nat) (hfin : mag < k.fmt.infBits) (hmax : ¬ (k = .f32 ∧ msl = true ∧ mag = k.fmt.infBits - 1))
-    (hw : Model.LitFormat.wholeValue? k.fmt mag = some n) (hn : n ≤ 2 ^ 63) (disp : Bytes)
+    (hw : Model.LitFormat.wholeValue? k.fmt mag = some n) (hn : n ≤ 2 ^ 63) (disp disp64 : Bytes)
     (rest : Bytes) (hb : Boundary rest) (inc : Bool) :
-    ∃ text, Model.LitFormat.fmtFloat k msl mag disp = .ok text ∧
+    ∃ text, Model.LitFormat.fmtFloat k msl mag disp disp64 = .ok text ∧
       tokenIntermediate (text ++ rest) inc = .ok (rest, Model.LitFormat.floatTok k mag) :=
-  Model.LitFormat.fmtFloat_whole_lexes k ty hk msl mag n hfin hmax hw hn disp rest hb inc
+  Model.LitFormat.fmtFloat_whole_lexes k ty hk msl mag n hfin hmax hw hn disp disp64 rest hb inc
 
 /-- **emit_infinity_exact**: `+∞` of every float kind is printed for HLSL as `1.#INF<suffix>` and read back as `+∞` of
 the same kind.  (For Metal it is printed as the name `INFINITY`, and the largest single as `FLT_MAX`: not literals; the
 run maps the names to their values.) -/
-theorem emit_infinity_exact (k : Model.LitFormat.Kind) (ty : Option FloatType) (hk : k.floatType? = some ty) (disp : Bytes)
-    (rest : Bytes) (hb : Boundary rest) (inc : Bool) :
-    ∃ text, Model.LitFormat.fmtFloat k false k.fmt.infBits disp = .ok text ∧
+theorem emit_infinity_exact (k : Model.LitFormat.Kind) (ty : Option FloatType) (hk : k.floatType? = some ty)
+    (disp disp64 : Bytes) (rest : Bytes) (hb : Boundary rest) (inc : Bool) :
+    ∃ text, Model.LitFormat.fmtFloat k false k.fmt.infBits disp disp64 = .ok text ∧
       tokenIntermediate (text ++ rest) inc = .ok (rest, Model.LitFormat.floatTok k k.fmt.infBits) :=
-  Model.LitFormat.fmtFloat_inf_lexes k ty hk disp rest hb inc
+  Model.LitFormat.fmtFloat_inf_lexes k ty hk disp disp64 rest hb inc
 
-/-- non-vacuity of `emit_value_exact`: the single `0.1f` (`0x3dcccccd`, `Display` = `0.1`): the hypotheses hold and the
-printed text `0.1f;` lexes to `Float32 0x3dcccccd` followed by `;` -/
+/-- non-vacuity of `emit_value_exact`: the single `0.1f` (`0x3dcccccd`, `Display` = `0.1`, as a double
+`0.10000000149011612`): the hypotheses hold (its digits do not round twice, so `h64` asks nothing) and the printed text
+`0.1f;` lexes to `Float32 0x3dcccccd` followed by `;` -/
 example : Dec2Bin.narrow32 (Dec2Bin.nearest64 ([0] ++ [1]) (0 - 1)) = 0x3dcccccd ∧
     Model.LitFormat.wholeValue? Dec2Bin.binary32 0x3dcccccd = none ∧
-    (Model.LitFormat.fmtFloat .f32 false 0x3dcccccd [48, 46, 49]).toOption = some [48, 46, 49, 102] ∧
+    Model.LitFormat.plainDec [0] [1] = [48, 46, 49] ∧
+    Model.LitFormat.roundTwice? false 0x3dcccccd [48, 46, 49] = some false ∧
+    (Model.LitFormat.fmtFloat .f32 false 0x3dcccccd [48, 46, 49]
+      [48, 46, 49, 48, 48, 48, 48, 48, 48, 48, 49, 52, 57, 48, 49, 49, 54, 49, 50]).toOption = some [48, 46, 49, 102] ∧
     (tokenIntermediate [48, 46, 49, 102, 59] false).toOption = some ([59], .litFloat32 0x3dcccccd) := by decide
 /-- non-vacuity of the `<Display>.0` arm of `emit_value_exact`: `1e30f` (`0x7149f2ca`, `Display` = 1 followed by 30 zeros) -/
 example : Dec2Bin.narrow32 (Dec2Bin.nearest64 (1 :: List.replicate 30 0) 0) = 0x7149f2ca ∧
     (Model.LitFormat.wholeValue? Dec2Bin.binary32 0x7149f2ca).isSome = true ∧
-    (Model.LitFormat.fmtFloat .f32 false 0x7149f2ca (49 :: List.replicate 30 48)).toOption =
+    (Model.LitFormat.fmtFloat .f32 false 0x7149f2ca (49 :: List.replicate 30 48) []).toOption =
       some (49 :: List.replicate 30 48 ++ [46, 48, 102]) ∧
     (tokenIntermediate (49 :: List.replicate 30 48 ++ [46, 48, 102, 41]) false).toOption =
       some ([41], .litFloat32 0x7149f2ca) := by decide
 /-- non-vacuity of `emit_whole_value_exact`: `255.0h` and the saturating `2^63` as a double -/
-example : (Model.LitFormat.fmtFloat .f16 true 0x437f0000 []).toOption = some [50, 53, 53, 46, 48, 104] ∧
+example : (Model.LitFormat.fmtFloat .f16 true 0x437f0000 [] []).toOption = some [50, 53, 53, 46, 48, 104] ∧
     (tokenIntermediate [50, 53, 53, 46, 48, 104] false).toOption = some ([], .litFloat16 0x437f0000) := by decide
 /-- non-vacuity of `emit_int_exact`: `4294967295u)` -/
 example : Model.LitFormat.fmtInt .u32 4294967295 = [52, 50, 57, 52, 57, 54, 55, 50, 57, 53, 117] ∧
@@ -758,37 +798,58 @@ example : Model.LitFormat.fmtInt .u32 4294967295 = [52, 50, 57, 52, 57, 54, 55, 
   decide
 
 /-- **emit_negative_exact**: a finite negative float (sign bit set; Rust's `Display` writes `-` and the digits of the
-magnitude) is printed as `-` followed by exactly the text of its magnitude, and `token_intermediate` reads that `-` as
+magnitude, for the value itself and for the value as a double alike; `f32_digits_round_twice` gives the same answer as
+for the magnitude) is printed as `-` followed by exactly the text of its magnitude, and `token_intermediate` reads that `-` as
 the token `Minus` and leaves the magnitude's text — to which `emit_value_exact` applies — untouched.  (`-2^63` is printed
 exactly, `-9223372036854775808.0`, while `+2^63` saturates: excluded here, covered by the run.)  Negative integers are
 built as `Minus` applied to the magnitude by `generate_literal` itself (`literal_tables_as_modelled`). -/
 theorem emit_negative_exact (k : Model.LitFormat.Kind) (ty : Option FloatType) (hk : k.floatType? = some ty) (msl : Bool)
     (mag : Nat) (hfin : mag < k.fmt.infBits) (hmax : ¬ (k = .f32 ∧ msl = true ∧ mag = k.fmt.infBits - 1))
-    (h63 : Model.LitFormat.wholeValue? k.fmt mag ≠ some (2 ^ 63)) (disp t : Bytes)
-    (ht : Model.LitFormat.fmtFloat k msl mag disp = .ok t) :
-    Model.LitFormat.fmtFloat k msl (Model.LitFormat.signBit k.fmt + mag) (45 :: disp) = .ok (45 :: t) ∧
+    (h63 : Model.LitFormat.wholeValue? k.fmt mag ≠ some (2 ^ 63)) (disp disp64 t : Bytes)
+    (ht : Model.LitFormat.fmtFloat k msl mag disp disp64 = .ok t) :
+    Model.LitFormat.fmtFloat k msl (Model.LitFormat.signBit k.fmt + mag) (45 :: disp) (45 :: disp64) = .ok (45 :: t) ∧
     ∀ (d : UInt8) (r rest : Bytes) (inc : Bool), t = d :: r → 48 ≤ d.toNat ∧ d.toNat ≤ 57 →
       tokenIntermediate (45 :: t ++ rest) inc = .ok (t ++ rest, .simple .Minus) := by
   refine ⟨?_, ?_⟩
-  · rw [Model.LitFormat.fmtFloat_negative k ty hk msl mag hfin hmax h63 disp, ht]
+  · rw [Model.LitFormat.fmtFloat_negative k ty hk msl mag hfin hmax h63 disp disp64, ht]
   · intro d r rest inc htd hd
     subst htd
     exact minus_before_digit d (r ++ rest) hd inc
 
 /-- non-vacuity: `-0.1f` (`0xbdcccccd`): printed `-0.1f`, read as `Minus`, `Float32 0x3dcccccd` -/
-example : (Model.LitFormat.fmtFloat .f32 false 0xbdcccccd [45, 48, 46, 49]).toOption = some [45, 48, 46, 49, 102] ∧
+example : (Model.LitFormat.fmtFloat .f32 false 0xbdcccccd [45, 48, 46, 49] []).toOption = some [45, 48, 46, 49, 102] ∧
     (tokenIntermediate [45, 48, 46, 49, 102] false).toOption = some ([48, 46, 49, 102], .simple .Minus) := by decide
 
-/-- **emit_f32_double_rounding_witness** (negation witness for the `f`/`h` kinds without the `Display` hypothesis): the
-single `0x15ae43fd` has the shortest round-trip decimal `7.038531e-26` — as a single, read directly, it is the nearest —
-but the lexer reads a literal through the nearest double and narrows once, and the nearest double of that decimal is the
-exact midpoint of `0x15ae43fd` and `0x15ae43fe`, which ties to the even neighbour: the printed text
-`0.00000000000000000000000007038531f` lexes to `0x15ae43fe`.  (Found by the run; the only such single.) -/
-theorem emit_f32_double_rounding_witness :
+/-- the `Display` text of the single `0x15ae43fd`: `0.00000000000000000000000007038531` -/
+def disp15ae43fd : Bytes := [48, 46] ++ List.replicate 25 48 ++ [55, 48, 51, 56, 53, 51, 49]
+/-- the `Display` text of the same value as a double: `0.00000000000000000000000007038530691851209` -/
+def disp15ae43fdWide : Bytes :=
+  [48, 46] ++ List.replicate 25 48 ++ [55, 48, 51, 56, 53, 51, 48, 54, 57, 49, 56, 53, 49, 50, 48, 57]
+
+/-- **emit_f32_double_rounding_repaired** (positive statement after fix 265a080; until then this was the negation witness
+`emit_f32_double_rounding_witness`: the printed text `0.00000000000000000000000007038531f` lexed to `0x15ae43fe`).  The
+single `0x15ae43fd` has the shortest round-trip decimal `7.038531e-26` — read directly as a single it is the nearest — but
+the lexer reads a literal through the nearest double and narrows once, and the nearest double of that decimal is the exact
+midpoint of `0x15ae43fd` and `0x15ae43fe`, which ties to the even neighbour: those digits still round twice (first three
+conjuncts; `f32_digits_round_twice` = `roundTwice?` says so).  `format_literal` therefore prints, for the `f` and the `h`
+kind, for both targets and for both signs, `Display` of the same value as a double, `…07038530691851209`; those digits
+name the double `0x3ab5c87fa0000000` = the exact value of the single (`widen32`), and the printed text is read back by
+`token_intermediate` as one literal of the same kind holding `0x15ae43fd` again.  With `emit_value_exact` (whose
+hypothesis about the `Display` digits of a non-whole single is gone) no single is left for which the output differs. -/
+theorem emit_f32_double_rounding_repaired :
     Dec2Bin.nearest32 [7, 0, 3, 8, 5, 3, 1] (-32) = 0x15ae43fd ∧
     Dec2Bin.narrow32 (Dec2Bin.nearest64 [7, 0, 3, 8, 5, 3, 1] (-32)) = 0x15ae43fe ∧
-    (match tokenIntermediate ([48, 46] ++ List.replicate 25 48 ++ [55, 48, 51, 56, 53, 51, 49, 102]) false with
-     | .ok (_, tok) => tok.floatBits? | .error _ => none) = some 0x15ae43fe := by decide
+    Model.LitFormat.roundTwice? false 0x15ae43fd disp15ae43fd = some true ∧
+    Model.LitFormat.widen32 0x15ae43fd = 0x3ab5c87fa0000000 ∧
+    Dec2Bin.nearest64 [7, 0, 3, 8, 5, 3, 0, 6, 9, 1, 8, 5, 1, 2, 0, 9] (-41) = 0x3ab5c87fa0000000 ∧
+    (∀ k ∈ [Model.LitFormat.Kind.f16, Model.LitFormat.Kind.f32], ∀ msl ∈ [true, false],
+      (Model.LitFormat.fmtFloat k msl 0x15ae43fd disp15ae43fd disp15ae43fdWide).toOption =
+        some (disp15ae43fdWide ++ k.suffix) ∧
+      (Model.LitFormat.fmtFloat k msl 0x95ae43fd (45 :: disp15ae43fd) (45 :: disp15ae43fdWide)).toOption =
+        some (45 :: disp15ae43fdWide ++ k.suffix)) ∧
+    (tokenIntermediate (disp15ae43fdWide ++ [102]) false).toOption = some ([], .litFloat32 0x15ae43fd) ∧
+    (tokenIntermediate (disp15ae43fdWide ++ [104, 59]) false).toOption = some ([59], .litFloat16 0x15ae43fd) := by
+  decide
 
 /-! ## Part 6 — multi-file inputs: every token span and every lexer diagnostic lies inside its own file -/
 
